@@ -104,6 +104,12 @@ ALLOWED_SUBST = {
                                 "`a.into_iter().chain(b).collect()` with a, b: Vec<T> -> mirrored `vec_chain_collect(a, b)` (assumed std meaning: a ++ b)"),
     "slice_shuffle_m": (r"(\w+)\.shuffle\((\w+)\);", r"slice_shuffle(&mut \1, \2);",
                         "`v.shuffle(rng)` -> mirrored `slice_shuffle(&mut v, rng)` (assumed rand meaning: some permutation of the elements)"),
+    "slice_iter_collect": (r"(\w+)\.iter\(\)\.collect\(\)", r"slice_iter_collect(\1)",
+                           "`s.iter().collect()` (into Vec<&T>) -> mirrored `slice_iter_collect(s)` (assumed std meaning: references to all elements, in order)"),
+    "repeat_take_collect": (r"std::iter::repeat\((\w+)\)\s*\.take\(([^()]*(?:\([^()]*\))?[^()]*)\)\s*\.collect\(\)", r"repeat_take_collect(\1, \2)",
+                            "`std::iter::repeat(x).take(n).collect()` -> mirrored `repeat_take_collect(x, n)` (assumed std meaning: n copies of the reference x)"),
+    "for_underscore_range": (r"for _ in 0\.\.", r"for verif_i in 0..",
+                             "`for _ in 0..n` -> `for verif_i in 0..n` (the unused loop variable gets a name so that the invariant can mention it)"),
     "phantom_fn": (r"PhantomData<fn\(\) -> (\w+)>", r"PhantomData<\1>",
                    "`PhantomData<fn() -> P>` -> `PhantomData<P>` (variance marker only; Verus has no fn-pointer types)"),
     "temp_guard_rotate": (r"(?m)^(\s*)state\.populations_mut\(\)\.rotate\(self\.n\);", r"\1let mut verif_tmp = state.populations_mut(); verif_tmp.rotate(self.n);",
